@@ -102,6 +102,7 @@ def run(chk, repo):
     chk.ok("C20-P2", "pipelines", f"{n_checked} output leaves sourced from nullable ASCII numeric fields: conversions only on the {len(REQUIRED)} required columns")
     # ---------------------------------------------------------------- P2 (a) / P4 header transformers
     header_sentinels(chk, repo, L)
+    chk.attempt(blank_never_raises, chk, repo, L, P, nullable)
     chk.attempt(blank_chains, chk, repo, L)
     # ---------------------------------------------------------------- P3
     try:
@@ -315,6 +316,76 @@ def p1_predicate(chk, repo, L):
         bad += [f"{n!r} dropped ({lvl})" for n in keep if n not in d.items]
     chk.require(not bad, "C20-P1", f"{tr.relpath}:remove_spares", "drops spare/spareN/blanks/blanksN and nothing else, at every nesting level",
                 f"remove_spares misclassifies {bad[:6]}", key="remove_spares:predicate")
+
+
+def blank_never_raises(chk, repo, L, P, nullable):
+    """C20-P6: every `raise` the transform pipelines reach under a test on decoded field values (recorded while shape inference
+    ran them on symbolic records) is re-evaluated with each nullable field of that test at its blank sentinel (-1 / NaN): a
+    test that then decides for the raising arm makes a blank value field fail the whole open instead of surfacing as missing"""
+    import math
+    from ..shapes import Choice, Const, DictS, Interp, Leaf, ListLit, ListOf, Obj, ShapeError, TupS, _Raise
+    chk.rule("C20-P6", "no raise on the transform paths fires for a blank (-1 / NaN) value field", 0)
+    sentinel = {}
+    for name, classes in nullable.items():
+        sentinel[name] = float("nan") if "AsciiFloat" in classes else -1
+
+    def subst(v, name, depth=0):
+        if depth > 8:
+            return v
+        if isinstance(v, Leaf):
+            if ".".join(v.src) == name and not v.also:
+                ops = [o for o in v.ops if not o.startswith(HARMLESS_OPS)]
+                if ops:
+                    raise ShapeError("derived")
+                return Const(sentinel[name])
+            return v
+        if isinstance(v, TupS):
+            return TupS([subst(x, name, depth + 1) for x in v.elts])
+        if isinstance(v, ListLit):
+            return ListLit([subst(x, name, depth + 1) for x in v.elts])
+        if isinstance(v, DictS):
+            d = DictS()
+            for k, x in v.items.items():
+                d.items[k] = subst(x, name, depth + 1)
+            return d
+        if isinstance(v, Obj) and v.cls in ("Variable", "Group"):
+            return Obj(v.cls, {k: subst(x, name, depth + 1) for k, x in v.fields.items()}, klass=getattr(v, "klass", None))
+        return v
+    n_events = n_fired = 0
+    for ev in P.I.cond_raises:
+        names = {x.id for x in ast.walk(ev["test"]) if isinstance(x, ast.Name)}
+        vals = {nm: ev["scope"].lookup(nm) for nm in names}
+        fields = set()
+        for v in vals.values():
+            if v is None:
+                continue
+            for lf in P.I.leaves(v):
+                nm = ".".join(lf.src)
+                if nm in sentinel:
+                    fields.add(nm)
+        if not fields:
+            continue
+        n_events += 1
+        where = f"{ev['where'].module.relpath}:{ev['where'].qualname}" if hasattr(ev["where"], "qualname") else "transform pipeline"
+        for f in sorted(fields):
+            I2 = Interp(repo)
+            sc2 = ev["scope"].child()
+            try:
+                for nm, v in vals.items():
+                    if v is not None:
+                        sc2.vars[nm] = subst(v, f)
+                t = I2.truth(I2.eval(ev["test"], sc2))
+            except (ShapeError, _Raise, RecursionError):
+                continue
+            if t is None:
+                continue
+            if t == ev["when"]:
+                n_fired += 1
+                shown = "NaN" if isinstance(sentinel[f], float) else sentinel[f]
+                chk.fail("C20-P6", where, f"`if {short(ev['test'], 60)}` raises ({ev['what'][:60]}) when {f} is blank (decoded as {shown}): a blank value field makes the whole open fail instead of surfacing as missing",
+                         key=f"{where}:{f}:raises-on-blank")
+    if n_fired == 0:
+        chk.ok("C20-P6", "pipelines", f"{len(P.I.cond_raises)} data-dependent raises on the transform paths, {n_events} of them test a nullable numeric field: none fires for the blank sentinel")
 
 
 def header_sentinels(chk, repo, L):
